@@ -12,3 +12,5 @@ for C in $ID "$@"; do
   grep '^VIOLATION' /tmp/try_$ID.$C.log | head -2
 done
 git -C /repo checkout -- . ; git -C /repo status --porcelain --untracked-files=no | head -2
+# rebuild the harness from the restored sources, so that helper scripts do not run a stale seeded binary
+(cd /verif/harness && cargo build --offline --release >/dev/null 2>&1; cargo build --offline >/dev/null 2>&1)
